@@ -114,44 +114,123 @@ def _mono_mul(k1, k2):
     return tuple(sorted(d.items()))
 
 
+def _monic(d):
+    """(monic representative, leading coefficient) of a non-constant polynomial: the coefficient of its largest monomial (in the
+    fixed tuple order) is made 1, so that c * d and d are recognised as the same denominator factor."""
+    lead = d.t[max(d.t)]
+    return (d if lead == 1 else d.scale(1 / lead)), lead
+
+
 class RF:
-    """Rational function num/den (den not normalised, never the zero polynomial)."""
+    """Rational function num / prod(factor_i ^ e_i).  The denominator is kept as a multiset of (monic) polynomial factors so that
+    sums over a common denominator do not square it (a/m + b/m^2 = (a m + b)/m^2): without this the normal forms of iterated
+    fixed-point maps over a position-dependent metric grow exponentially.  ``d`` expands the product on demand."""
 
-    __slots__ = ("n", "d")
+    __slots__ = ("n", "f", "_d")
 
-    def __init__(self, n, d=None):
-        self.n = n
-        self.d = d if d is not None else Poly.const(1)
+    def __init__(self, n, d=None, f=None):
+        self._d = None
+        if f is not None:
+            self.n, self.f = n, f
+            return
+        if d is None:
+            self.n, self.f = n, {}
+        elif d.is_const():
+            c = d.const_value()
+            if c == 0:
+                raise ZeroDivisionError("zero denominator")
+            self.n, self.f = (n if c == 1 else n.scale(1 / c)), {}
+        else:
+            m, lead = _monic(d)
+            self.n, self.f = (n if lead == 1 else n.scale(1 / lead)), {m.key(): (m, 1)}
+
+    @property
+    def d(s):
+        if s._d is None:
+            s._d = _expand(s.f)
+        return s._d
+
+    @staticmethod
+    def _lcm(fa, fb):
+        """(lcm, cofactor of fa, cofactor of fb) as factor dicts."""
+        l, ca, cb = dict(fa), {}, {}
+        for k, (p, e) in fb.items():
+            ea = fa.get(k, (p, 0))[1]
+            if e > ea:
+                l[k] = (p, e)
+                ca[k] = (p, e - ea)
+            elif ea > e:
+                cb[k] = (p, ea - e)
+        for k, (p, e) in fa.items():
+            if k not in fb:
+                cb[k] = (p, e)
+        return l, ca, cb
 
     def __add__(s, o):
-        if s.d.key() == o.d.key():
-            return RF(s.n + o.n, s.d)
-        return RF(s.n * o.d + o.n * s.d, s.d * o.d)
+        if s.f.keys() == o.f.keys() and all(s.f[k][1] == o.f[k][1] for k in s.f):
+            return RF(s.n + o.n, f=s.f)
+        l, ca, cb = RF._lcm(s.f, o.f)
+        return RF(s.n * _expand(ca) + o.n * _expand(cb), f=l)
 
     def __sub__(s, o):
-        if s.d.key() == o.d.key():
-            return RF(s.n - o.n, s.d)
-        return RF(s.n * o.d - o.n * s.d, s.d * o.d)
+        return s + (-o)
 
     def __neg__(s):
-        return RF(-s.n, s.d)
+        return RF(-s.n, f=s.f)
 
     def __mul__(s, o):
-        return RF(s.n * o.n, s.d * o.d)
+        if not o.f:
+            return RF(s.n * o.n, f=s.f)
+        if not s.f:
+            return RF(s.n * o.n, f=o.f)
+        f = dict(s.f)
+        for k, (p, e) in o.f.items():
+            f[k] = (p, e + f[k][1]) if k in f else (p, e)
+        return RF(s.n * o.n, f=f)
 
     def __truediv__(s, o):
         if o.n.is_zero():
             raise ZeroDivisionError("division by a syntactically zero term")
-        return RF(s.n * o.d, s.d * o.n)
+        # s.n / s.f * o.f / o.n: common factors of s.f and o.f cancel
+        den, num = dict(s.f), {}
+        for k, (p, e) in o.f.items():
+            ed = den.get(k, (p, 0))[1]
+            if ed > e:
+                den[k] = (p, ed - e)
+            else:
+                den.pop(k, None)
+                if e > ed:
+                    num[k] = (p, e - ed)
+        n = s.n * _expand(num)
+        if o.n.is_const():
+            return RF(n.scale(1 / o.n.const_value()), f=den)
+        m, lead = _monic(o.n)
+        k = m.key()
+        den[k] = (m, den[k][1] + 1) if k in den else (m, 1)
+        return RF(n if lead == 1 else n.scale(1 / lead), f=den)
 
     def key(s):
         return (s.n.key(), s.d.key())
 
     def simplify_const_den(s):
-        if s.d.is_const():
-            c = s.d.const_value()
-            return RF(s.n.scale(1 / c), Poly.const(1))
         return s
+
+    def map_polys(s, fn):
+        """Apply a value-preserving rewriting of polynomials (the normaliser's rules) to numerator and denominator factors."""
+        out = RF(fn(s.n))
+        for p, e in s.f.values():
+            q = RF(Poly.const(1), fn(p))
+            for _ in range(e):
+                out = out * q
+        return out
+
+
+def _expand(f):
+    r = Poly.const(1)
+    for p, e in f.values():
+        for _ in range(e):
+            r = r * p
+    return r
 
 
 class Canon:
@@ -176,7 +255,7 @@ class Canon:
         if key in self.atom_ids:
             return self.atom_ids[key]
         for (nm, ars), aid in self.uf_index.get((name, len(args)), []):
-            if all(self.reduce(x.n * y.d - y.n * x.d).is_zero() for x, y in zip(args, ars)):
+            if all(self.reduce((x - y).n).is_zero() for x, y in zip(args, ars)):
                 self.atom_ids[key] = aid
                 return aid
         aid = self.atom(key, e)
@@ -431,7 +510,7 @@ class Canon:
     def reduce_rf(self, r):
         if not self.rules and not self.defs:
             return r
-        return RF(self.reduce(r.n), self.reduce(r.d))
+        return r.map_polys(self.reduce)
 
     # -- back to z3
     def poly_to_z3(self, p):
@@ -452,7 +531,8 @@ class Canon:
     def difference_numerator(self, a, b):
         """Reduced numerator polynomial of a - b and the two denominators."""
         A, B = self.rf(a), self.rf(b)
-        N = self.reduce(A.n * B.d - B.n * A.d)
+        # (numerator over the least common denominator: A - B == 0 iff it vanishes, given non-zero denominators)
+        N = self.reduce((A - B).n)
         return N, A.d, B.d
 
 
